@@ -924,3 +924,6 @@ func ScanInto(dest []any, vals []Val) error {
 	}
 	return nil
 }
+
+// InTx reports whether a transaction is open (BEGIN without COMMIT/ROLLBACK).
+func (db *DB) InTx() bool { return db.inTx }
